@@ -58,5 +58,10 @@ top:
 	if len(gfa) < aux.reqCnt {
 		slip.TypePanic(s, depth, "function-arguments", args[1], "list")
 	}
+	// defmethod and remove-method change the table of methods and the method
+	// combinations while holding this lock.
+	aux.moo.Lock()
+	defer aux.moo.Unlock()
+
 	return aux.compMethList(gfa)
 }
